@@ -15,6 +15,28 @@ SPECIAL = (b"<unk>", b"<s>", b"</s>")
 
 
 # ------------------------------------------------------------------------------ the tool
+def get_tools(names, dest):
+    """Build the tree's CLI tools and copy them to `dest` (the shared build cache may be pruned by
+    concurrent checks of other properties while this one runs).  Returns (ok, {name: path}, log)."""
+    import shutil
+    from vlib import repo
+    for attempt in range(3):
+        ok, bdir, lg = repo.build("tools", targets=list(names))
+        if not ok:
+            return False, {}, lg
+        try:
+            os.makedirs(dest, exist_ok=True)
+            out = {}
+            for n in names:
+                shutil.copy2(os.path.join(bdir, "bin", n), os.path.join(dest, n))
+                out[n] = os.path.join(dest, n)
+            return True, out, lg
+        except OSError as ex:
+            lg = "build cache vanished while copying (%s)" % ex
+            repo._tree_hash = None
+    return False, {}, lg
+
+
 def lmplz_args(case, mem="64M", extra=()):
     a = ["-o", str(case["order"]), "-S", mem]
     if case.get("prune") is not None:
